@@ -1,14 +1,482 @@
 package main
 
 // Replay of solver counterexamples against the real code (go test -overlay; nothing is written into /repo).
+//
+// Scope: functions without a keeper receiver whose parameters and results are scalars -- machine integers, bool,
+// math.Int, LegacyDec, time.Time, sdk.Coin, error -- or slices of machine integers. For a failing obligation of
+// such a function the VC is solved once more without its quantified assertions, the values of the parameters and
+// of the (symbolically computed) results are read from the model, a test calling the real function with those
+// parameters is run through `go test -overlay`, and the counterexample counts as reproduced when the real results
+// equal the results in the model (for panic obligations: when the real call panics). The model then is an
+// execution of the real code that violates the clause. Anything else: not reproduced.
+
+import (
+	"encoding/json"
+	"fmt"
+	"go/types"
+	"os"
+	"os/exec"
+	"path/filepath"
+	"regexp"
+	"strings"
+	"time"
+
+	"golang.org/x/tools/go/ssa"
+)
 
 type ReplayResult struct {
-	Reproduced bool   `json:"reproduced"`
-	Test       string `json:"test,omitempty"`
-	Output     string `json:"output,omitempty"`
-	Note       string `json:"note,omitempty"`
+	Reproduced bool              `json:"reproduced"`
+	Inputs     map[string]string `json:"inputs,omitempty"`
+	ModelOut   []string          `json:"model_results,omitempty"`
+	RealOut    []string          `json:"real_results,omitempty"`
+	Test       string            `json:"test,omitempty"`
+	Output     string            `json:"output,omitempty"`
+	Note       string            `json:"note,omitempty"`
+}
+
+type rpKind int
+
+const (
+	rpNo rpKind = iota
+	rpInt
+	rpBool
+	rpMathInt
+	rpDec
+	rpTime
+	rpErr
+	rpCoin
+	rpIntSlice
+)
+
+func replayKind(t types.Type) rpKind {
+	switch kindOf(t) {
+	case kInt:
+		return rpInt
+	case kBool:
+		return rpBool
+	case kMathInt:
+		if strings.HasSuffix(namedPath(t), "math/big.Int") {
+			return rpNo
+		}
+		return rpMathInt
+	case kDec:
+		return rpDec
+	case kTime:
+		return rpTime
+	case kIface:
+		if types.Identical(types.Unalias(t), types.Universe.Lookup("error").Type()) {
+			return rpErr
+		}
+	case kStruct:
+		if strings.HasSuffix(namedPath(t), "cosmos-sdk/types.Coin") {
+			return rpCoin
+		}
+	case kSlice:
+		if kindOf(types.Unalias(t).Underlying().(*types.Slice).Elem()) == kInt {
+			return rpIntSlice
+		}
+	}
+	return rpNo
+}
+
+var reValue = regexp.MustCompile(`^\(\((.*)\)\)$`)
+
+// smtInt parses a z3 integer value ("5", "(- 5)").
+func smtInt(s string) (string, bool) {
+	s = strings.TrimSpace(s)
+	if strings.HasPrefix(s, "(- ") && strings.HasSuffix(s, ")") {
+		return "-" + strings.TrimSpace(s[3:len(s)-1]), true
+	}
+	for _, c := range s {
+		if c < '0' || c > '9' {
+			return "", false
+		}
+	}
+	return s, s != ""
 }
 
 func tryReplay(p *Prog, o *Obligation, dir string) *ReplayResult {
-	return &ReplayResult{Note: "no replay harness for this obligation kind; the solver model is in solver_output"}
+	fn := p.Funcs[o.Func]
+	if fn == nil || o.vc == nil {
+		return &ReplayResult{Note: "function not available for replay"}
+	}
+	if recv := fn.Signature.Recv(); recv != nil {
+		np := namedPath(recv.Type())
+		if !strings.Contains(np, "/types.") {
+			return &ReplayResult{Note: "no replay harness for methods of stateful receivers (keepers, handlers); the solver output is in solver_output"}
+		}
+	}
+	// which parameters / results can be transported
+	type slot struct {
+		name string
+		v    Val
+		k    rpKind
+		t    types.Type
+	}
+	var ins, outs []slot
+	for i, prm := range fn.Params {
+		if i >= len(o.inVals) {
+			return &ReplayResult{Note: "parameters not recorded"}
+		}
+		if fn.Signature.Recv() != nil && i == 0 {
+			continue // zero-value receiver
+		}
+		k := replayKind(prm.Type())
+		if k == rpNo || k == rpErr {
+			if strings.HasSuffix(namedPath(prm.Type()), "context.Context") || strings.HasSuffix(namedPath(prm.Type()), "types.Context") {
+				return &ReplayResult{Note: "no replay harness for functions taking a context"}
+			}
+			return &ReplayResult{Note: "no replay harness for parameter type " + prm.Type().String()}
+		}
+		ins = append(ins, slot{prm.Name(), o.inVals[i], k, prm.Type()})
+	}
+	rts := resultTypes(fn.Signature)
+	isPanic := strings.HasPrefix(o.Kind, "panic")
+	if !isPanic {
+		if len(o.outVals) != len(rts) {
+			return &ReplayResult{Note: "results not recorded"}
+		}
+		for i, t := range rts {
+			k := replayKind(t)
+			if k == rpNo || k == rpIntSlice {
+				return &ReplayResult{Note: "no replay harness for result type " + t.String()}
+			}
+			outs = append(outs, slot{fmt.Sprintf("r%d", i), o.outVals[i], k, t})
+		}
+	}
+	// model: the VC without quantified assertions (a model of it may be spurious; the replay decides)
+	var queries []string
+	add := func(t string) int { queries = append(queries, t); return len(queries) - 1 }
+	type q struct{ idx []int }
+	inQ := map[int]q{}
+	const maxLen = 8
+	for i, s := range ins {
+		switch s.k {
+		case rpIntSlice:
+			sl := types.Unalias(s.t).Underlying().(*types.Slice)
+			hn, _ := o.vc.arrHeapName(sl.Elem())
+			idx := []int{add(app("slen", s.v.S))}
+			for j := 0; j < maxLen; j++ {
+				idx = append(idx, add(app("select", app("select", hn+"!0", app("sptr", s.v.S)), app("idx", app("soff", s.v.S), fmt.Sprint(j)))))
+			}
+			inQ[i] = q{idx}
+		case rpCoin:
+			return &ReplayResult{Note: "no replay harness for coin parameters"}
+		default:
+			inQ[i] = q{[]int{add(s.v.S)}}
+		}
+	}
+	outQ := map[int]q{}
+	for i, s := range outs {
+		switch s.k {
+		case rpErr:
+			outQ[i] = q{[]int{add(eq(s.v.S, "iface_nil"))}}
+		case rpCoin:
+			ss := o.vc.structInfo(s.t)
+			outQ[i] = q{[]int{add(app(fieldSel(ss, "Amount"), s.v.S))}}
+		default:
+			outQ[i] = q{[]int{add(s.v.S)}}
+		}
+	}
+	if len(queries) == 0 {
+		return &ReplayResult{Note: "nothing to replay"}
+	}
+	txt := o.vc.renderNoQuant(o.prefix, o.goal, o.extra, o.tags)
+	txt = strings.Replace(txt, "(check-sat)\n", "", 1)
+	var gv strings.Builder
+	gv.WriteString("(check-sat)\n")
+	for _, qq := range queries {
+		fmt.Fprintf(&gv, "(get-value (%s))\n", qq)
+	}
+	file := filepath.Join(dir, "replay_"+mangle(o.Name)+".smt2")
+	os.WriteFile(file, []byte(txt+gv.String()), 0o644)
+	defer os.Remove(file)
+	out, _ := exec.Command("z3-new", "-T:20", file).CombinedOutput()
+	lines := strings.Split(strings.TrimSpace(string(out)), "\n")
+	if len(lines) == 0 || strings.TrimSpace(lines[0]) != "sat" {
+		return &ReplayResult{Note: "the solver gives no model for this obligation (" + strings.TrimSpace(lines[0]) + ")"}
+	}
+	// get-value answers may span lines: re-join and split on top-level "((" starts
+	joined := strings.Join(lines[1:], " ")
+	var vals []string
+	depth, start := 0, -1
+	for i, c := range joined {
+		switch c {
+		case '(':
+			if depth == 0 {
+				start = i
+			}
+			depth++
+		case ')':
+			depth--
+			if depth == 0 && start >= 0 {
+				vals = append(vals, joined[start:i+1])
+				start = -1
+			}
+		}
+	}
+	if len(vals) != len(queries) {
+		return &ReplayResult{Note: "could not read the model"}
+	}
+	valueOf := func(i int) string {
+		// "((term value))": the value is the last top-level element
+		s := strings.TrimSpace(vals[i])
+		s = strings.TrimSuffix(strings.TrimPrefix(s, "(("), "))")
+		d := 0
+		for j := len(s) - 1; j >= 0; j-- {
+			switch s[j] {
+			case ')':
+				d++
+			case '(':
+				d--
+			case ' ':
+				if d == 0 {
+					return strings.TrimSpace(s[j+1:])
+				}
+			}
+			if d == 0 && s[j] == '(' {
+				return strings.TrimSpace(s[j:])
+			}
+		}
+		return s
+	}
+	// Go literals for the inputs
+	res := &ReplayResult{Inputs: map[string]string{}}
+	var argExprs []string
+	qual := func(t types.Type) string {
+		return types.TypeString(t, func(pk *types.Package) string {
+			if pk == fn.Pkg.Pkg {
+				return ""
+			}
+			return pk.Name()
+		})
+	}
+	imports := map[string]string{}
+	for i, s := range ins {
+		switch s.k {
+		case rpInt:
+			v, ok := smtInt(valueOf(inQ[i].idx[0]))
+			if !ok {
+				return &ReplayResult{Note: "non-numeral model value"}
+			}
+			res.Inputs[s.name] = v
+			argExprs = append(argExprs, fmt.Sprintf("%s(%s)", qual(s.t), v))
+		case rpBool:
+			v := valueOf(inQ[i].idx[0])
+			res.Inputs[s.name] = v
+			argExprs = append(argExprs, v)
+		case rpMathInt:
+			v, ok := smtInt(valueOf(inQ[i].idx[0]))
+			if !ok {
+				return &ReplayResult{Note: "non-numeral model value"}
+			}
+			res.Inputs[s.name] = v
+			imports["cosmossdk.io/math"] = "sdkmath"
+			argExprs = append(argExprs, fmt.Sprintf("mustInt(%q)", v))
+		case rpDec:
+			v, ok := smtInt(valueOf(inQ[i].idx[0]))
+			if !ok {
+				return &ReplayResult{Note: "non-numeral model value"}
+			}
+			res.Inputs[s.name] = v + "e-18"
+			imports["cosmossdk.io/math"] = "sdkmath"
+			argExprs = append(argExprs, fmt.Sprintf("mustDec(%q)", v))
+		case rpTime:
+			v, ok := smtInt(valueOf(inQ[i].idx[0]))
+			if !ok {
+				return &ReplayResult{Note: "non-numeral model value"}
+			}
+			res.Inputs[s.name] = v + "ns"
+			imports["time"] = "time"
+			if "(- "+strings.TrimPrefix(v, "-")+")" == timeZeroNs {
+				argExprs = append(argExprs, "time.Time{}")
+			} else {
+				argExprs = append(argExprs, fmt.Sprintf("time.Unix(0, %s).UTC()", v))
+			}
+		case rpIntSlice:
+			n, ok := smtInt(valueOf(inQ[i].idx[0]))
+			var ln int
+			fmt.Sscanf(n, "%d", &ln)
+			if !ok || ln < 0 || ln > maxLen {
+				return &ReplayResult{Note: "model slice too long for the replay harness"}
+			}
+			sl := types.Unalias(s.t).Underlying().(*types.Slice)
+			var els []string
+			for j := 0; j < ln; j++ {
+				v, ok := smtInt(valueOf(inQ[i].idx[1+j]))
+				if !ok {
+					return &ReplayResult{Note: "non-numeral model value"}
+				}
+				els = append(els, v)
+			}
+			res.Inputs[s.name] = "[" + strings.Join(els, " ") + "]"
+			argExprs = append(argExprs, fmt.Sprintf("[]%s{%s}", qual(sl.Elem()), strings.Join(els, ", ")))
+		}
+	}
+	for i, s := range outs {
+		v := valueOf(outQ[i].idx[0])
+		if s.k != rpErr && s.k != rpBool {
+			if n, ok := smtInt(v); ok {
+				v = n
+			}
+		}
+		if s.k == rpErr {
+			if v == "true" {
+				v = "nil"
+			} else {
+				v = "error"
+			}
+		}
+		res.ModelOut = append(res.ModelOut, v)
+	}
+	// the test
+	call := fn.Name() + "(" + strings.Join(argExprs, ", ") + ")"
+	if recv := fn.Signature.Recv(); recv != nil {
+		call = "(" + qual(recv.Type()) + "{})." + call
+		if _, ok := recv.Type().(*types.Pointer); ok {
+			call = "(&" + strings.TrimPrefix(qual(recv.Type()), "*") + "{})." + fn.Name() + "(" + strings.Join(argExprs, ", ") + ")"
+		}
+	}
+	if fn.TypeParams().Len() > 0 || len(fn.TypeArgs()) > 0 {
+		var ta []string
+		for _, t := range fn.TypeArgs() {
+			ta = append(ta, qual(t))
+		}
+		call = fn.Origin().Name() + "[" + strings.Join(ta, ", ") + "](" + strings.Join(argExprs, ", ") + ")"
+	}
+	var rnames, prints []string
+	for i, s := range outs {
+		rn := fmt.Sprintf("r%d", i)
+		rnames = append(rnames, rn)
+		switch s.k {
+		case rpInt:
+			prints = append(prints, fmt.Sprintf(`fmt.Printf("REPLAY-OUT %%d\n", %s)`, rn))
+		case rpBool:
+			prints = append(prints, fmt.Sprintf(`fmt.Printf("REPLAY-OUT %%t\n", %s)`, rn))
+		case rpMathInt:
+			prints = append(prints, fmt.Sprintf(`fmt.Printf("REPLAY-OUT %%s\n", %s.String())`, rn))
+		case rpDec:
+			prints = append(prints, fmt.Sprintf(`fmt.Printf("REPLAY-OUT %%s\n", %s.BigInt().String())`, rn))
+		case rpTime:
+			prints = append(prints, fmt.Sprintf(`fmt.Printf("REPLAY-OUT %%d\n", %s.UnixNano())`, rn))
+		case rpErr:
+			prints = append(prints, fmt.Sprintf(`if %s == nil { fmt.Println("REPLAY-OUT nil") } else { fmt.Println("REPLAY-OUT error") }`, rn))
+		case rpCoin:
+			prints = append(prints, fmt.Sprintf(`if %s.Amount.IsNil() { fmt.Println("REPLAY-OUT 0") } else { fmt.Printf("REPLAY-OUT %%s\n", %s.Amount.String()) }`, rn, rn))
+		}
+	}
+	assign := ""
+	if len(rnames) > 0 {
+		assign = strings.Join(rnames, ", ") + " := "
+	}
+	if isPanic {
+		assign = ""
+		if len(rts) > 0 {
+			var blanks []string
+			for range rts {
+				blanks = append(blanks, "_")
+			}
+			assign = strings.Join(blanks, ", ") + " = "
+		}
+	}
+	var imp strings.Builder
+	imp.WriteString("\t\"fmt\"\n\t\"testing\"\n")
+	helpers := ""
+	if _, ok := imports["time"]; ok {
+		imp.WriteString("\t\"time\"\n")
+	}
+	if _, ok := imports["cosmossdk.io/math"]; ok {
+		imp.WriteString("\t\"math/big\"\n\tsdkmath \"cosmossdk.io/math\"\n")
+		helpers = `
+func mustInt(s string) sdkmath.Int { v, ok := sdkmath.NewIntFromString(s); if !ok { panic("bad int literal") }; return v }
+func mustDec(s string) sdkmath.LegacyDec { b, ok := new(big.Int).SetString(s, 10); if !ok { panic("bad dec literal") }; return sdkmath.LegacyNewDecFromBigIntWithPrec(b, 18) }
+var _ = mustInt
+var _ = mustDec
+`
+	}
+	test := fmt.Sprintf(`package %s
+
+// generated by govc: replays a solver counterexample for
+//   %s
+// against the real function.
+
+import (
+%s)
+%s
+func TestVerifReplayModel(t *testing.T) {
+	defer func() {
+		if r := recover(); r != nil {
+			fmt.Printf("REPLAY-PANIC %%v\n", r)
+		}
+	}()
+	%s%s
+	%s
 }
+`, fn.Pkg.Pkg.Name(), o.Name, imp.String(), helpers, assign, call, strings.Join(prints, "\n\t"))
+	res.Test = test
+	pkgDir := filepath.Join(repoDir, strings.TrimPrefix(fn.Pkg.Pkg.Path(), modPath+"/"))
+	testFile := filepath.Join(dir, "replay_"+mangle(o.Name)+"_test.go")
+	os.WriteFile(testFile, []byte(test), 0o644)
+	ov := filepath.Join(dir, "replay_"+mangle(o.Name)+"_overlay.json")
+	ovb, _ := json.Marshal(map[string]any{"Replace": map[string]string{filepath.Join(pkgDir, "zz_verif_replay_model_test.go"): testFile}})
+	os.WriteFile(ov, ovb, 0o644)
+	defer os.Remove(ov)
+	cmd := exec.Command("go", "test", "-overlay", ov, "-vet=off", "-count=1", "-timeout", "60s", "-run", "^TestVerifReplayModel$", ".")
+	cmd.Dir = pkgDir
+	cmd.Env = append(os.Environ(), "GOFLAGS=-mod=mod", "GOPROXY=off", "GOSUMDB=off", "GOTOOLCHAIN=local")
+	done := make(chan struct{})
+	var tout []byte
+	go func() { tout, _ = cmd.CombinedOutput(); close(done) }()
+	select {
+	case <-done:
+	case <-time.After(150 * time.Second):
+		if cmd.Process != nil {
+			cmd.Process.Kill()
+		}
+		return &ReplayResult{Note: "replay test timed out", Inputs: res.Inputs, Test: test}
+	}
+	res.Output = string(tout)
+	if len(res.Output) > 4000 {
+		res.Output = res.Output[:4000]
+	}
+	panicked := false
+	for _, l := range strings.Split(string(tout), "\n") {
+		l = strings.TrimSpace(l)
+		if strings.HasPrefix(l, "REPLAY-OUT ") {
+			res.RealOut = append(res.RealOut, strings.TrimPrefix(l, "REPLAY-OUT "))
+		}
+		if strings.HasPrefix(l, "REPLAY-PANIC") {
+			panicked = true
+			res.RealOut = append(res.RealOut, l)
+		}
+	}
+	if isPanic {
+		res.Reproduced = panicked
+		if !panicked {
+			res.Note = "the real function does not panic on the model's inputs (the model of the quantifier-free relaxation is spurious)"
+		}
+		return res
+	}
+	if panicked {
+		res.Note = "the real function panics on the model's inputs"
+		return res
+	}
+	if len(res.RealOut) == len(res.ModelOut) && len(res.RealOut) > 0 {
+		same := true
+		for i := range res.RealOut {
+			if res.RealOut[i] != res.ModelOut[i] {
+				same = false
+			}
+		}
+		res.Reproduced = same
+		if !same {
+			res.Note = "the real results differ from the model's (the model of the quantifier-free relaxation is spurious, or the encoding is imprecise here)"
+		}
+	} else {
+		res.Note = "could not compare results"
+	}
+	return res
+}
+
+var _ = ssa.BuilderMode(0)
+var _ = reValue
